@@ -431,7 +431,9 @@ def x_ds_write(w, s):
             if vs["name"] in fm.dims:
                 raise Skip("name")
     try:
-        ds.write_nc(path, mode=mode, **_fmt(w, s))
+        kw = dict(_fmt(w, s))
+        kw.update(spec.get("nc_kwargs", {}))
+        ds.write_nc(path, mode=mode, **kw)
     except Exception as e:
         absorb_unknown(w, path)
         if s.get("recovery") and w.props:
